@@ -48,6 +48,11 @@ CLAIMED["C07"]=dict(
    text="Exploration: the full grid of 14 shapes x N x 5 stack limits x up to 5 memory limits plus generated points; outcome must be the expected value or the configured limit's failure, no allocation may leave a heap above its limit, tail shapes keep their peak stack, the worker's 8 MiB native stack survives, interrupts return Interrupted within 2 s.",
    note="one recorded known finding: the out-of-memory error message itself is allocated past the limit; the 2 s interrupt bound is the only wall-clock criterion",
    ref="6 C07")
+CLAIMED["C13"]=dict(
+   technique="property-based testing of heap isolation: generated values moved with re_root along 8 routes of a thread tree / unrelated VM, followed by generated sequences of collect / churn / drop actions; oracle = the copy reads equal to what was sent after every action, and a Trace-driven walk from the destination's roots reaches no swept (quarantined) object and no object of a foreign heap",
+   text="Exploration: 8k (quick) / 200k (thorough) (value, route, action sequence) cases. Found and fixed: arrays of strings were copied shallowly. One recorded known finding: function values moved to an unrelated VM still reference the source VM's function objects.",
+   note="sharing/cycle structure inside the copy is not compared; channel/spawn routes are C17's domain",
+   ref="6 C13")
 NOT_YET = {}
 def main():
     props=[json.loads(l) for l in open('/verif/properties.jsonl')]
